@@ -598,11 +598,11 @@ def group_cases_law():
         e = dbl[0] if dbl[0] == dbl[1] else dbl
         ident = curve.pt_encode(curve.IDENT).hex()
         if isinstance(e, tuple):
-            exp = tuple("T." + ".".join([x] * 4 + [ident]) for x in e)
+            exp = tuple("T." + ".".join([x] * 8 + [ident]) for x in e)
         else:
-            exp = "T." + ".".join([e] * 4 + [ident])
-        # double through every public doubling path, and P - P = identity
-        out.append((["ge %s dup dbl enc drop dblp pdbl pdblf dup sub enc" % tp], [exp], None))
+            exp = "T." + ".".join([e] * 8 + [ident])
+        # double through every public doubling path (incl. the completed-point forms converted both ways), and P - P = identity
+        out.append((["ge %s dup dbl enc drop dblp pdbl pdblf dp1f dp1p pdp1f pdp1p dup sub enc" % tp], [exp], None))
         # adding / subtracting the identity in precomputed form leaves the point unchanged; by-value subtraction P - P
         pe = enc_alt(pp)
         if isinstance(pe, tuple):
@@ -618,6 +618,7 @@ def group_cases_law():
             out.append((["ge %s %s add enc" % (tp, tq)], [alts if len(alts) > 1 else alts[0]], None))
             alts = tuple({"T.T.%s" % sub[0], "T.T.%s" % sub[1]})
             out.append((["ge %s %s sub enc" % (tp, tq)], [alts if len(alts) > 1 else alts[0]], None))
+    out.append((["ge pzero"], [curve.pt_encode(curve.IDENT).hex()], None))
     # multiples of B built without decoding: (sB + tB) == (s+t)B, sB - tB, 2(sB)
     ss = [0, 1, 2, 7, 8, L - 1, (1 << 252) + 5] + [int.from_bytes(pat(k, 0, 32), "little") % L for k in (5, 6)]
     for s in ss:
